@@ -10,7 +10,9 @@ package metajournal
 //
 //	source ──► F  (plain replica, e.g. API / aggregator journalFast) ──► AF (agent, plain chain)
 //	       ├─► F2 (second plain replica, different batching)
-//	       └─► C  (compact journal of the aggregator) ──► A1, A2 (agents, compact chain)
+//	       ├─► C  (compact journal of the aggregator) ──► A1, A2 (agents, compact chain)
+//	       └─► C2 (compact journal of a second aggregator)
+//	Asw: an agent asking C or C2 at random (observed only, outside the statement's chain)
 //
 // The reference model is the list of every version the source ever produced per entity.
 
@@ -103,6 +105,7 @@ type c20Replica struct {
 	damaged bool     // the backing image was truncated by a restart since then
 	instVer int64    // version at the last effective Save of this journal instance (0: none)
 	gen     int      // reload generation
+	observe bool     // not part of the judged topology (agent that switches between aggregators)
 }
 
 func (rp *c20Replica) upstream() *JournalFast {
@@ -622,6 +625,7 @@ func (h *c20Hist) open(rp *c20Replica, image []byte) error {
 		}
 		rp.fp = fp
 		rp.j, err = LoadJournalFastFile(fp, data_model.JournalDDOSProtectionTimeout, rp.compact, apply)
+		rp.j.SetDumpPathPrefix(filepath.Join(h.dir, "dump-"+rp.name)) // the journal-dump marker metric makes the journal write a dump
 	} else {
 		b := append([]byte(nil), image...)
 		rp.buf = &b
@@ -1007,6 +1011,10 @@ func (h *c20Hist) checkConverged() {
 		chain := h.chainName(rp)
 		x := map[string]any{"replica": rp.name}
 		h.checkJournalIntegrity(rp)
+		if rp.observe {
+			h.observeSwitcher(rp)
+			continue
+		}
 		// ---- journal level: exactly the source's latest version of every entity
 		want := 0
 		for _, k := range s.keys {
@@ -1179,7 +1187,9 @@ func (h *c20Hist) checkConverged() {
 	// ---- state hashes: replicas of the same journal are identical
 	byChain := map[bool][]*c20Replica{}
 	for _, rp := range h.reps {
-		byChain[rp.chainC] = append(byChain[rp.chainC], rp)
+		if !rp.observe {
+			byChain[rp.chainC] = append(byChain[rp.chainC], rp)
+		}
 	}
 	_, srcHash := s.j.VersionHash()
 	for chainC, reps := range byChain {
@@ -1194,6 +1204,122 @@ func (h *c20Hist) checkConverged() {
 		if !chainC && h0 != srcHash {
 			h.bad("hash/replicas-differ", fmt.Sprintf("state hash of %s (%s) differs from the source's (%s)", reps[0].name, h0, srcHash), nil)
 		}
+	}
+}
+
+// observeSwitcher: an agent that fetched from two aggregators' compact journals in turn.
+// A compact journal keeps an older version number when a newer version is identical in
+// compact form, so an agent that saw an intermediate version at the other aggregator can
+// stay behind; the statement speaks of one chain: counted, not judged.
+func (h *c20Hist) observeSwitcher(rp *c20Replica) {
+	s := h.src
+	h.w.Count("switching_agent.sync_points", 1)
+	stale := 0
+	for _, k := range s.keys {
+		if k.typ == format.DashboardEvent || k.typ == format.PromConfigEvent {
+			continue
+		}
+		hist := s.hist[k]
+		got, ok := rp.j.journal[journalEventID{typ: k.typ, id: k.id}]
+		if !ok {
+			stale++
+			continue
+		}
+		if k.typ == format.MetricEvent {
+			gm, err := MetricMetaFromEvent(got.Event)
+			lm, _ := MetricMetaFromEvent(hist[len(hist)-1])
+			if err != nil {
+				stale++
+				continue
+			}
+			gm.Version, lm.Version = 0, 0
+			if c20View(gm, true) != c20View(lm, true) {
+				stale++
+			}
+		} else if !c20EqualNoVersion(got.Event, hist[len(hist)-1]) {
+			stale++
+		}
+	}
+	if stale > 0 {
+		h.r.NotJudged("agent_switching_between_aggregators_ends_with_stale_entity", int64(stale))
+		h.w.Count("switching_agent.sync_points_with_stale_entities", 1)
+	}
+}
+
+// setup creates the source journal and the replicas of one history.
+func (h *c20Hist) setup() (c, c2 *c20Replica) {
+	rnd := h.rnd
+	if h.files {
+		h.dir = h.r.MkTmp("c20-")
+	}
+	sb := []byte(nil)
+	sj, _ := LoadJournalFastSlice(&sb, data_model.JournalDDOSProtectionTimeout, false, nil)
+	h.src = &c20Src{j: sj, buf: &sb, hist: map[c20Key][]tlmetadata.Event{}, nameEver: map[string]map[int64]struct{}{}}
+	h.src.nextID[format.MetricEvent] = int64(rnd.IntN(1000))
+	h.src.version = int64(rnd.IntN(50))
+	mk := func(name string, compact, chainC bool, up *c20Replica) *c20Replica {
+		rp := &c20Replica{name: name, compact: compact, chainC: chainC, up: up, src: h.src}
+		if err := h.open(rp, nil); err != nil {
+			panic(err)
+		}
+		h.reps = append(h.reps, rp)
+		return rp
+	}
+	f := mk("F", false, false, nil)
+	mk("F2", false, false, nil)
+	c = mk("C", true, true, nil)
+	c2 = mk("C2", true, true, nil) // compact journal of a second aggregator
+	mk("AF", false, false, f)
+	mk("A1", false, true, c)
+	mk("A2", false, true, c)
+	// an agent that asks a random aggregator each time: outside DESIGN's topology, observed only
+	sw := mk("Asw", false, true, c)
+	sw.observe = true
+	return c, c2
+}
+
+// c20ScriptedSwitch: deterministic form of the one situation in which an agent that moves
+// between aggregators stays behind: aggregator C never saw version B of a metric and skips
+// version A' (identical to A in compact form), the agent saw B at aggregator C2 and then
+// asks C only.  Outside the statement's single chain: recorded, not judged.
+func c20ScriptedSwitch(r *verifkit.Run, w *verifkit.Worker) {
+	h := &c20Hist{r: r, w: w, rnd: rand.New(rand.NewPCG(1, 2)), index: -1}
+	c, c2 := h.setup()
+	sw := h.reps[len(h.reps)-1]
+	full := func(rp *c20Replica) {
+		for i := 0; i < 100 && !h.deliver(rp, math.MaxInt, data_model.MaxJournalItemsSent, data_model.MaxJournalBytesSent); i++ {
+		}
+	}
+	m := &c20Metric{id: 7, spec: format.MetricMetaValue{Name: "flip_flop"}}
+	h.src.metrics = append(h.src.metrics, m)
+	h.emitMetric(m) // A
+	full(c)
+	full(c2)
+	sw.up = c
+	full(sw)
+	m.spec.Disable = true
+	h.emitMetric(m) // B
+	full(c2)
+	sw.up = c2
+	full(sw)
+	m.spec.Disable = false
+	h.emitMetric(m) // A again
+	full(c)
+	full(c2)
+	sw.up = c
+	full(sw)
+	got, ok := sw.j.journal[journalEventID{typ: format.MetricEvent, id: 7}]
+	if !ok {
+		return
+	}
+	gm, err := MetricMetaFromEvent(got.Event)
+	_, hc := c.j.VersionHash()
+	_, hs := sw.j.VersionHash()
+	if err == nil && gm.Disable {
+		r.NotJudged("scripted_agent_moved_from_aggregator_C2_to_C_keeps_stale_metric_until_it_asks_C2_again", 1)
+	}
+	if hc != hs {
+		r.NotJudged("scripted_agent_hash_differs_from_its_current_aggregator_after_full_delivery", 1)
 	}
 }
 
@@ -1220,28 +1346,7 @@ func (h *c20Hist) run() {
 			h.bad("panic/"+op, fmt.Sprintf("panic: %v", p), map[string]any{"stack": string(debug.Stack())})
 		}
 	}()
-	if h.files {
-		h.dir = h.r.MkTmp("c20-")
-	}
-	sb := []byte(nil)
-	sj, _ := LoadJournalFastSlice(&sb, data_model.JournalDDOSProtectionTimeout, false, nil)
-	h.src = &c20Src{j: sj, buf: &sb, hist: map[c20Key][]tlmetadata.Event{}, nameEver: map[string]map[int64]struct{}{}}
-	h.src.nextID[format.MetricEvent] = int64(rnd.IntN(1000))
-	h.src.version = int64(rnd.IntN(50))
-	mk := func(name string, compact, chainC bool, up *c20Replica) *c20Replica {
-		rp := &c20Replica{name: name, compact: compact, chainC: chainC, up: up, src: h.src}
-		if err := h.open(rp, nil); err != nil {
-			panic(err)
-		}
-		h.reps = append(h.reps, rp)
-		return rp
-	}
-	f := mk("F", false, false, nil)
-	mk("F2", false, false, nil)
-	c := mk("C", true, true, nil)
-	mk("AF", false, false, f)
-	mk("A1", false, true, c)
-	mk("A2", false, true, c)
+	c, c2 := h.setup()
 
 	steps := 40 + rnd.IntN(90)
 	if h.fat {
@@ -1262,6 +1367,9 @@ func (h *c20Hist) run() {
 			h.sourceOp()
 		case x < 86:
 			rp := h.reps[rnd.IntN(len(h.reps))]
+			if rp.observe {
+				rp.up = []*c20Replica{c, c2}[rnd.IntN(2)]
+			}
 			cut := 1 + rnd.IntN(5)
 			if rnd.IntN(4) == 0 {
 				cut = math.MaxInt
@@ -1298,6 +1406,34 @@ func (h *c20Hist) run() {
 	if h.syncAll() {
 		h.checkConverged()
 	}
+	h.checkDumps()
+}
+
+// checkDumps: every dump written on the journal-dump marker is named <prefix>-<version>-<hash>.dump;
+// loading it must give a journal with exactly that version and state hash.
+func (h *c20Hist) checkDumps() {
+	if h.dir == "" {
+		return
+	}
+	files, _ := filepath.Glob(filepath.Join(h.dir, "dump-*.dump"))
+	for _, fn := range files {
+		base := strings.TrimSuffix(filepath.Base(fn), ".dump")
+		parts := strings.Split(base, "-")
+		if len(parts) < 4 {
+			continue
+		}
+		wantHash, wantVer := parts[len(parts)-1], parts[len(parts)-2]
+		fp, err := os.OpenFile(fn, os.O_RDWR, 0o666)
+		if err != nil {
+			continue
+		}
+		j, lerr := LoadJournalFastFile(fp, data_model.JournalDDOSProtectionTimeout, false, nil)
+		_ = fp.Close()
+		h.w.Count("dumps_checked", 1)
+		if lerr != nil || fmt.Sprint(j.currentVersion) != wantVer || j.stateHashStr != wantHash {
+			h.bad("dump/reload-differs", fmt.Sprintf("dump %s loads to version %d hash %s (err %v)", filepath.Base(fn), j.currentVersion, j.stateHashStr, lerr), nil)
+		}
+	}
 }
 
 func TestVerifC20(t *testing.T) {
@@ -1305,10 +1441,10 @@ func TestVerifC20(t *testing.T) {
 	defer r.Finish()
 	log.SetOutput(io.Discard)
 	defer log.SetOutput(os.Stderr)
-	r.SetRule("one case = one random history of source edits (metric create/edit/rename incl. reuse of freed names, groups with overlapping prefixes created/renamed/toggled, namespaces, dashboards, prom configs, the journal-dump marker) interleaved with partial deliveries (random item/byte limits, cut batches, loader errors) to 6 real replicas (2 plain, 1 compact, 3 agents), Save and restart from intact or truncated images (slice- and file-backed, 5% with >512 KiB journals spanning several chunks), judged at every sync point. Non-trivial = at least one rename, one partial delivery and one group change; distinct = distinct operation sequences.")
+	r.SetRule("one case = one random history of source edits (metric create/edit/rename incl. reuse of freed names, groups with overlapping prefixes created/renamed/toggled, namespaces, dashboards, prom configs, the journal-dump marker) interleaved with partial deliveries (random item/byte limits, cut batches, loader errors) to 7 judged real replicas (2 plain, 2 compact, 3 agents; an eighth agent that switches between the two compact journals is observed only), Save and restart from intact or truncated images (slice- and file-backed, 5% with >512 KiB journals spanning several chunks), judged at every sync point. Non-trivial = at least one rename, one partial delivery and one group change; distinct = distinct operation sequences.")
 	r.Assume("source events look like the metadata engine's journal rows: FieldMask has only the namespace bit, no Metadata; names are unique per entity type at the source; namespaces are never renamed")
 	r.Assume("events cross every hop TL-encoded, as over RPC")
-	n := r.N(700, 50000)
+	n := r.N(600, 20000)
 	first := 0
 	if p := os.Getenv("VERIF_REPLAY"); p != "" {
 		var rep struct {
@@ -1321,9 +1457,13 @@ func TestVerifC20(t *testing.T) {
 		}
 	}
 	workers := 8
+	if r.Thorough() {
+		workers = 16
+	}
 	if n-first < workers {
 		workers = 1
 	}
+	r.Parallel(1, "scripted", func(w *verifkit.Worker) { c20ScriptedSwitch(r, w) })
 	seed := r.SubSeed("hist")
 	r.Parallel(workers, "hist", func(w *verifkit.Worker) {
 		for i := first + w.Index; i < n; i += workers {
